@@ -462,6 +462,7 @@ type snap struct {
 	DBs     map[string]dbSnap `json:"dbs"`
 	Outside []string          `json:"outside"` // entries of the node directory and of its parent
 	Tmp     []string          `json:"tmp"`     // temporary files (reported, not compared)
+	Subs    []string          `json:"subs"`    // node IDs (of those requests carry) registered as stream subscribers
 	k       string
 }
 
@@ -529,6 +530,17 @@ func (w *world) snapshot() *snap {
 		s.DBs[name] = ds
 	}
 	sort.Strings(s.DBSet)
+	s.Subs = []string{}
+	ids := map[string]uint64{"foreign": w.p.Foreign, "foreign-default": foreignDefault, "own": n.Store.ID()}
+	if w.peer != nil {
+		ids["peer"] = w.peer.Store.ID()
+	}
+	for name, id := range ids {
+		if n.Store.SubscriberByNodeID(id) != nil {
+			s.Subs = append(s.Subs, name)
+		}
+	}
+	sort.Strings(s.Subs)
 	s.DiskSet = lsNames(filepath.Join(n.Dir, "dbs"))
 	for _, f := range lsNames(n.Dir) {
 		s.Outside = append(s.Outside, "node/"+f)
@@ -575,7 +587,7 @@ func diffKinds(a, b *snap) []string {
 		ltxs = ltxs || j(x.LTX) != j(y.LTX)
 		file = file || x.DBFile != y.DBFile || j(x.Other) != j(y.Other)
 	}
-	for k, v := range map[string]bool{"pos": pos, "locks": locks, "ltx": ltxs, "dbfile": file, "outside": j(a.Outside) != j(b.Outside)} {
+	for k, v := range map[string]bool{"pos": pos, "locks": locks, "ltx": ltxs, "dbfile": file, "outside": j(a.Outside) != j(b.Outside), "subscribers": j(a.Subs) != j(b.Subs)} {
 		if v {
 			out = append(out, k)
 		}
@@ -1105,6 +1117,11 @@ func (wk *worker) runEdge(e *edge, verbose bool) {
 		time.Sleep(time.Millisecond)
 		before = w.snapshot()
 	}
+	// likewise the subscription of a stream request the harness has just cancelled goes away a moment later
+	for i := 0; i < 300 && wk.last != nil && strings.Join(diffKinds(wk.last, before), "+") == "subscribers"; i++ {
+		time.Sleep(time.Millisecond)
+		before = w.snapshot()
+	}
 	if wk.last != nil && wk.last.key() != before.key() {
 		rep.Nonconf("state of %s drifted between two requests (%v) before %s", w.kind, diffKinds(wk.last, before), e.Req)
 	}
@@ -1182,7 +1199,7 @@ func (wk *worker) runEdge(e *edge, verbose bool) {
 	changed := before.key() != after.key()
 	if e.Class != "valid" {
 		rep.Eval(1)
-		if changed && strings.Join(diffKinds(before, after), "+") == "locks" {
+		if k := strings.Join(diffKinds(before, after), "+"); changed && (k == "locks" || k == "subscribers" || k == "locks+subscribers") {
 			// R5: a lock held only for a moment is background work; a lock the request leaked stays
 			for i := 0; i < 150 && changed; i++ {
 				time.Sleep(time.Millisecond)
